@@ -2,7 +2,7 @@
 # reverify.sh <seed-dir>: demo exit 0 on HEAD, exit 1 with the patch, baseline 176 with the patch (scratch copy)
 s=$1; t=$(mktemp -d /tmp/rv-XXXX)
 git -C /repo archive HEAD | tar -x -C $t
-mkdir -p $t/_seed; cp $s/demo.py $t/_seed/demo_x.py
+mkdir -p $t/_seed; cp $s/*.py $t/_seed/; cp $s/demo.py $t/_seed/demo_x.py
 cd $t
 /venv/bin/python _seed/demo_x.py >/dev/null 2>&1; a=$?
 git init -q . 2>/dev/null; git apply $s/patch.diff || echo "NOAPPLY"
